@@ -49,6 +49,9 @@ type Tty struct {
 	StartErr error
 	// ReadGate, when set, is called at the start of every Read (outside the lock).
 	ReadGate func()
+	// ErrWithData: an injected read error is returned together with the queued
+	// chunk in front of it (n > 0 and err != nil, which io.Reader allows)
+	ErrWithData bool
 	// failWrite >= 0: the next Write accepts only that many bytes and fails
 	failWrite int
 	// IdleZeroRead > 0: a Read that finds no input does not block but returns
@@ -145,6 +148,16 @@ func (t *Tty) Read(p []byte) (int, error) {
 			t.readErrs = t.readErrs[1:]
 			t.logCall("ReadEnd", 0, true)
 			return 0, err
+		}
+		if t.ErrWithData && len(t.readQ) == 1 && len(t.readErrs) > 0 {
+			chunk := t.readQ[0]
+			n := copy(p, chunk)
+			t.readQ = t.readQ[1:]
+			err := t.readErrs[0]
+			t.readErrs = t.readErrs[1:]
+			t.logCall("ReadEnd", n, true)
+			t.cond.Broadcast()
+			return n, err
 		}
 		if len(t.readQ) > 0 {
 			chunk := t.readQ[0]
